@@ -9,6 +9,7 @@ import (
 	"math"
 	"math/big"
 	"math/rand"
+	"sync"
 
 	"github.com/filecoin-project/go-bitfield"
 	"github.com/filecoin-project/go-f3/certexchange"
@@ -569,9 +570,16 @@ func reg[T any, PT interface {
 	cborT
 }](name string, shapes, small []string, gen func(r *rand.Rand, shape string) *T, eq func(a, b *T) bool) *typeDesc {
 	c := encoding.NewCBOR[PT]()
-	z, err := encoding.NewZSTD[PT]()
-	if err != nil {
-		panic(err)
+	var z *encoding.ZSTD[PT]
+	var zonce sync.Once
+	zz := func() *encoding.ZSTD[PT] { // one shared instance per type, created on first use
+		zonce.Do(func() {
+			var err error
+			if z, err = encoding.NewZSTD[PT](); err != nil {
+				panic(err)
+			}
+		})
+		return z
 	}
 	return &typeDesc{
 		name: name, shapes: shapes, smallShapes: small,
@@ -586,8 +594,8 @@ func reg[T any, PT interface {
 		eq:   func(a, b any) bool { return eq((*T)(a.(PT)), (*T)(b.(PT))) },
 		cEnc: func(v any) ([]byte, error) { return c.Encode(v.(PT)) },
 		cDec: func(b []byte, into any) error { return c.Decode(b, into.(PT)) },
-		zEnc: func(v any) ([]byte, error) { return z.Encode(v.(PT)) },
-		zDec: func(b []byte, into any) error { return z.Decode(b, into.(PT)) },
+		zEnc: func(v any) ([]byte, error) { return zz().Encode(v.(PT)) },
+		zDec: func(b []byte, into any) error { return zz().Decode(b, into.(PT)) },
 	}
 }
 
